@@ -524,6 +524,68 @@ def discharge_swap_puts_the_incoming_assembly_at_the_outgoing_place(n: int, i1: 
     assert core.numRings == rings
 
 
+def inv_but_block_names(core, pool):
+    """Inv without its clause on blocksByName"""
+    kids = list(core._children)
+    ok = len(core.childrenByLocator) == len(kids)
+    for c in kids:
+        ok = ok and c.parent is core and c.spatialLocator.grid is core.spatialGrid and core.childrenByLocator.get(c.spatialLocator) is c
+    for c in kids + list(pool.kids):
+        ok = ok and core.assembliesByName.get(c.name) is c
+        for b in c._children:
+            ok = ok and b.parent is c
+    return ok and len(core.assembliesByName) == len(kids) + len(pool.kids)
+
+
+@lemma(gen=dict(GEN, m=(0, 3), m2=(0, 3)), stubs=STUBS, overrides=OVERRIDES, timeout=90)
+def discharge_swap_with_stationary_blocks_leaves_them_at_the_core_position(n: int, i1: int, j1: int, i2: int, j2: int, m: int, m2: int, track: bool, fromPool: bool):
+    """dischargeSwap WITH blocks designated stationary (the lemma above has none), every pair of patterns of two blocks:
+    refused (ValueError, nothing changed) exactly when the patterns differ; otherwise the incoming assembly sits at the
+    outgoing one's place, the stationary blocks stayed at that core position (they now belong to the incoming assembly,
+    at their own axial index; the incoming assembly's stationary blocks left with the outgoing one), travelling blocks
+    travelled, and the location and assembly-name tables are exact.  The BLOCK-name table is not asserted here: it is wrong
+    for the exchanged blocks (known findings F166 / F194, bounded ids lookups.blocksByName.*)."""
+    n = choose(n, 1, 2)
+    m = choose(m, 0, 3)
+    m2 = choose(m2, 0, 3)
+    core, r, pool = world(track, True, 4, 9)
+    out = assembly(1, 2, "001-001", stationary_of(m, 2))
+    by = assembly(2, 1, "002-001")
+    inc = assembly(7, 2, "SFP" if fromPool else "LoadQueue", stationary_of(m2, 2))
+    place(core, out, i1, j1)
+    if n == 2:
+        place(core, by, i2, j2)
+    if fromPool:
+        register_pooled(core, pool, inc)
+        inc.spatialLocator = IndexLocation(2, 0, 0, new(Marker))
+    assume(inv(core, pool))
+    assume(4 >= hexring(i1, j1))
+    fh = new(FuelHandler, o=new(OperatorStub, r=r), moved=[])
+    bi, bo = list(inc._children), list(out._children)
+    try:
+        fh.dischargeSwap(inc, out)
+        done = True
+    except ValueError:
+        done = False
+    assert done == (m == m2), "refused exactly when the stationary blocks do not line up"
+    if not done:
+        assert inv(core, pool) and at(core, i1, j1) is out and len(core._children) == n, "a refusal changes nothing"
+        assert inc._children[0] is bi[0] and inc._children[1] is bi[1] and out._children[0] is bo[0] and out._children[1] is bo[1]
+        return
+    assert inv_but_block_names(core, pool), "location and assembly-name tables exact"
+    assert at(core, i1, j1) is inc and inc.parent is core and len(core._children) == n and core._children[n - 1] is inc
+    assert (out.parent is pool) if track else (out.parent is None and "A0001" not in core.assembliesByName)
+    for k in range(2):
+        if k in stationary_of(m, 2):
+            assert inc._children[k] is bo[k] and out._children[k] is bi[k], "stationary blocks keep their core position and exchange assemblies"
+        else:
+            assert inc._children[k] is bi[k] and out._children[k] is bo[k], "travelling blocks travel"
+        assert inc._children[k].spatialLocator.k == k and out._children[k].spatialLocator.k == k
+    assert len(inc._children) == 2 and len(out._children) == 2
+    if n == 2:
+        assert at(core, i2, j2) is by and by.p.numMoves == 0, "bystander untouched"
+
+
 # ----------------------------------------------------------------------------- lookups
 @lemma(gen=dict(GEN, ring=(1, 3), pos=(1, 12)), stubs=STUBS, overrides=OVERRIDES, timeout=60)
 def lookups_by_location_and_name_agree_with_the_children(n: int, i1: int, j1: int, i2: int, j2: int, ring: int, pos: int):
@@ -586,6 +648,100 @@ def cascade_moves_every_assembly_one_place_on(i1: int, j1: int, i2: int, j2: int
             assert a1._children[k] is b1[k] and a2._children[k] is b2[k] and a3._children[k] is b3[k], "travelling blocks travel"
         assert a1._children[k].parent is a1 and a2._children[k].parent is a2 and a3._children[k].parent is a3
     assert a1.p.numMoves == 2 and a2.p.numMoves == 1 and a3.p.numMoves == 1, "one count per move made"
+
+
+@lemma(gen=dict(SWAPGEN, m=(0, 7), m2=(0, 7)), stubs=STUBS, overrides=OVERRIDES, timeout=120)
+def swap_of_three_block_assemblies_with_any_stationary_pattern(i1: int, j1: int, i2: int, j2: int, m: int, m2: int):
+    """swapAssemblies on assemblies of THREE blocks (the lemma above: two), every pair of stationary patterns 0..7 - among
+    them several stationary blocks that are not neighbours (bottom and top block stationary, the middle one travelling):
+    refused exactly when the patterns differ; otherwise stationary blocks exchange assemblies at their own axial
+    position, travelling blocks travel, block order is unchanged."""
+    m = choose(m, 0, 7)
+    m2 = choose(m2, 0, 7)
+    core, r, pool, fh, a1, a2, a3 = swap_world(2, i1, j1, i2, j2, 0, 0, m, m2, 3)
+    assume(inv(core, pool))
+    b1, b2 = list(a1._children), list(a2._children)
+    try:
+        fh.swapAssemblies(a1, a2)
+        done = True
+    except ValueError:
+        done = False
+    assert done == (m == m2), "refused exactly when the stationary blocks of the two assemblies do not line up"
+    assert inv(core, pool)
+    if not done:
+        assert at(core, i1, j1) is a1 and at(core, i2, j2) is a2 and a1.p.numMoves == 0 and a2.p.numMoves == 0, "nothing moved"
+        for k in range(3):
+            assert a1._children[k] is b1[k] and a2._children[k] is b2[k]
+        return
+    assert at(core, i2, j2) is a1 and at(core, i1, j1) is a2 and len(core.childrenByLocator) == 2
+    assert len(a1._children) == 3 and len(a2._children) == 3
+    for k in range(3):
+        if k in stationary_of(m, 3):
+            assert a1._children[k] is b2[k] and a2._children[k] is b1[k], "stationary blocks stay at their core position: they exchange assemblies"
+        else:
+            assert a1._children[k] is b1[k] and a2._children[k] is b2[k], "travelling blocks travel with their assembly"
+        assert a1._children[k].parent is a1 and a2._children[k].parent is a2
+        assert a1._children[k].spatialLocator.k == k and a2._children[k].spatialLocator.k == k, "block order / axial index unchanged"
+
+
+@lemma(gen=dict(SWAPGEN, n=(2, 3), m=(0, 3)), stubs=STUBS, overrides=OVERRIDES, timeout=90)
+def swap_of_an_assembly_with_itself_moves_nothing(n: int, i1: int, j1: int, i2: int, j2: int, i3: int, j3: int, m: int):
+    """FuelHandler.swapAssemblies(a1, a1) - the two inputs are the SAME assembly (the lemma above always swaps two different
+    ones), every stationary pattern: a1 stays where it is with all of its blocks in order, nobody else moves, Inv holds;
+    and swapAssemblies(None, a2) / (a2, None) does nothing at all."""
+    n = choose(n, 2, 3)
+    m = choose(m, 0, 3)
+    core, r, pool, fh, a1, a2, a3 = swap_world(n, i1, j1, i2, j2, i3, j3, m, m, 2)
+    assume(inv(core, pool))
+    b1 = list(a1._children)
+    fh.swapAssemblies(a1, a1)
+    assert inv(core, pool), "Inv holds"
+    assert len(core._children) == n and core._children[0] is a1 and core._children[1] is a2
+    assert (a1.spatialLocator.i, a1.spatialLocator.j) == (i1, j1) and at(core, i1, j1) is a1 and a1.spatialLocator.grid is core.spatialGrid, "it sits where it was"
+    assert at(core, i2, j2) is a2 and a2.p.numMoves == 0 and len(core.childrenByLocator) == n, "nobody else moved"
+    assert len(a1._children) == 2 and a1._children[0] is b1[0] and a1._children[1] is b1[1] and b1[0].parent is a1 and b1[1].parent is a1, "it keeps its own blocks, in order"
+    assert b1[0].spatialLocator.k == 0 and b1[1].spatialLocator.k == 1
+    moves = a1.p.numMoves
+    fh.swapAssemblies(None, a2)
+    fh.swapAssemblies(a2, None)
+    assert inv(core, pool) and at(core, i2, j2) is a2 and at(core, i1, j1) is a1 and a2.p.numMoves == 0 and a1.p.numMoves == moves, "a swap with nothing is no move"
+
+
+@lemma(gen=dict(SWAPGEN, shape=(0, 5), m=(0, 3)), stubs=STUBS, overrides=OVERRIDES, timeout=120)
+def cascade_of_any_list_keeps_the_inventory_and_the_lookups(i1: int, j1: int, i2: int, j2: int, i3: int, j3: int, m: int, shape: int):
+    """FuelHandler.swapCascade on the lists the lemma above leaves out (three assemblies in the core, the same stationary
+    pattern): the empty list, one assembly, two, a list with a hole ([a1, None, a3]), and lists naming an assembly twice
+    ([a1, a2, a1], [a1, a1]; the code only warns).  Whatever the list: the core holds the same three assemblies, each
+    on one of the three cells that were occupied (each cell once), Inv holds, every assembly still has two blocks of
+    its own axial positions; for the lists without repetition the moves are the documented ones."""
+    m = choose(m, 0, 3)
+    shape = choose(shape, 0, 5)
+    core, r, pool = world(True, True, 4, 9)
+    a1 = assembly(1, 2, "001-001", stationary_of(m, 2))
+    a2 = assembly(2, 2, "002-001", stationary_of(m, 2))
+    a3 = assembly(3, 2, "002-002", stationary_of(m, 2))
+    place(core, a1, i1, j1)
+    place(core, a2, i2, j2)
+    place(core, a3, i3, j3)
+    assume(inv(core, pool))
+    fh = new(FuelHandler, o=new(OperatorStub, r=r), moved=[])
+    b1, b2, b3 = list(a1._children), list(a2._children), list(a3._children)
+    fh.swapCascade([[], [a1], [a1, a2], [a1, None, a3], [a1, a2, a1], [a1, a1]][shape])
+    assert inv(core, pool), "Inv preserved"
+    assert len(core._children) == 3 and core._children[0] is a1 and core._children[1] is a2 and core._children[2] is a3, "same inventory"
+    assert len(core.childrenByLocator) == 3 and at(core, i1, j1) is not None and at(core, i2, j2) is not None and at(core, i3, j3) is not None, "the three cells stay occupied, one assembly each"
+    for a in (a1, a2, a3):
+        assert len(a._children) == 2 and a._children[0].parent is a and a._children[1].parent is a
+        assert a._children[0].spatialLocator.k == 0 and a._children[1].spatialLocator.k == 1
+    blocks = [a1._children[0], a2._children[0], a3._children[0], a1._children[1], a2._children[1], a3._children[1]]
+    for b in b1 + b2 + b3:
+        assert len([x for x in blocks if x is b]) == 1, "no block duplicated or lost"
+    if shape <= 1:
+        assert at(core, i1, j1) is a1 and at(core, i2, j2) is a2 and at(core, i3, j3) is a3 and a1.p.numMoves == 0, "nothing to do"
+    elif shape == 2:
+        assert at(core, i1, j1) is a2 and at(core, i2, j2) is a1 and at(core, i3, j3) is a3 and a3.p.numMoves == 0, "a cascade of two is a swap"
+    elif shape == 3:
+        assert at(core, i1, j1) is a3 and at(core, i3, j3) is a1 and at(core, i2, j2) is a2 and a2.p.numMoves == 0, "the hole is skipped"
 
 
 @lemma(gen=dict(GEN, i1=(-1, 4), j1=(-2, 4)), stubs=STUBS_REAL_RINGS, overrides=OVERRIDES, timeout=90)
